@@ -164,6 +164,18 @@ func runC18Scripts(c *Ctx) {
 		r.hist("jobscript_" + t.name)
 		spath := filepath.Join(root, "job.sh")
 		os.WriteFile(spath, []byte(script), 0o755)
+		// a newline in the path of a template that carries it on a `#` line: whatever goes wrong
+		// then (command not run, run with other arguments / environment, stray output) is the
+		// known finding F31, not a new one
+		f31 := strings.Contains(meta, "\n") && directiveHasPath(t.text)
+		viol := func(v Violation) {
+			if f31 {
+				v.Impl = map[string]interface{}{"observed_as": v.Key, "detail": v.Impl}
+				v.Key = "C18:jobscript:newline-in-directive-path"
+				v.What = "a newline in the pipestance path ends the scheduler-directive comment line that carries the stdout/stderr path; the shell executes the rest of the path as code"
+			}
+			r.violate(v)
+		}
 		for _, sh := range shells {
 			outp := filepath.Join(root, "rec.json")
 			os.Remove(outp)
@@ -205,13 +217,13 @@ func runC18Scripts(c *Ctx) {
 			input := map[string]interface{}{"template": t.name, "shell": sh[0], "program": prog, "argv": argv, "envs": envs,
 				"workdir": work, "script": script}
 			if err != nil && strings.Contains(meta, "\n") && directiveHasPath(t.text) {
-				r.violate(Violation{Kind: "property", Key: "C18:jobscript:newline-in-directive-path",
+				viol(Violation{Kind: "property", Key: "C18:jobscript:newline-in-directive-path",
 					What:  "a newline in the pipestance path ends the scheduler-directive comment line that carries the stdout/stderr path; the shell executes the rest of the path as code",
 					Input: input})
 				continue
 			}
 			if err != nil {
-				r.violate(Violation{Kind: "property", Key: "C18:jobscript:command-not-run:" + t.name,
+				viol(Violation{Kind: "property", Key: "C18:jobscript:command-not-run:" + t.name,
 					What:  "executing the rendered job script did not run the command (the recorder was never started)",
 					Input: input})
 				continue
@@ -219,17 +231,17 @@ func runC18Scripts(c *Ctx) {
 			wantCwd, _ := filepath.EvalSymlinks(work)
 			gotCwd, _ := filepath.EvalSymlinks(got.Cwd)
 			if gotCwd != wantCwd && strings.Contains(t.text, "__MRO_JOB_WORKDIR__") {
-				r.violate(Violation{Kind: "property", Key: "C18:jobscript:workdir",
+				viol(Violation{Kind: "property", Key: "C18:jobscript:workdir",
 					What: "the job did not run in the job's files directory", Input: input, Impl: got.Cwd, Expect: work})
 			}
 			if !equalStrs(got.Args, argv) {
-				r.violate(Violation{Kind: "property", Key: "C18:jobscript:argv",
+				viol(Violation{Kind: "property", Key: "C18:jobscript:argv",
 					What:  "the shell did not reproduce the argument vector from the job script",
 					Input: input, Impl: fmt.Sprintf("%q", got.Args), Expect: fmt.Sprintf("%q", argv)})
 			}
 			for k, v := range envs {
 				if got.Env[k] != v {
-					r.violate(Violation{Kind: "property", Key: "C18:jobscript:env",
+					viol(Violation{Kind: "property", Key: "C18:jobscript:env",
 						What:  "the shell did not reproduce an environment value from the job script",
 						Input: input, Impl: fmt.Sprintf("%q", got.Env[k]), Expect: fmt.Sprintf("%q", v)})
 				}
@@ -287,7 +299,7 @@ func runC18Scripts(c *Ctx) {
 					key = "C18:jobscript:newline-in-directive-path"
 					what = "a newline in the pipestance path ends the scheduler-directive comment line that carries the stdout/stderr path; the shell executes the rest of the path as code"
 				}
-				r.violate(Violation{Kind: "property", Key: key, What: what, Input: input, Impl: stray,
+				viol(Violation{Kind: "property", Key: key, What: what, Input: input, Impl: stray,
 					Expect: "exit status 0, empty stderr, no output but the pid of a background job, no stray files"})
 			}
 		}
